@@ -63,7 +63,22 @@ def _fold_vocab(ctx: Ctx) -> list[str]:
             return ev.call(Closure(cf.node, {}), args, {})
         return NotImplemented
 
-    ev = Evaluator({"__call__": call_hook}, max_steps=5_000_000)
+    resolving: set[str] = set()
+
+    def name_hook(name, env):
+        "module-level constants and helper functions of constants.py / utils.py (a constant moved out of a literal, an extracted sort key)"
+        for mod in (m, u):
+            if name in mod.assigns and name not in resolving:
+                resolving.add(name)
+                try:
+                    return ev.ev(mod.assigns[name], {"str": str})
+                finally:
+                    resolving.discard(name)
+            if name in mod.functions:
+                return Closure(mod.functions[name].node, {})
+        raise Unknown(f"free name `{name}`")
+
+    ev = Evaluator({"__call__": call_hook, "__name__": name_hook}, max_steps=5_000_000)
     base = ctx.index.cls(f"{CO}._SPECIAL_TOKENS_BASE")
     special = []
     for n, f in base.fields.items():
@@ -162,11 +177,22 @@ def rule_W3(ctx: Ctx) -> None:
     ok_src = len(sdef) == 1 and X.same_expr(sdef[0], "list(np.ndindex(tuple([n for _ in range(ndim)])))", "list(np.ndindex((n,) * ndim))", "list(np.ndindex(*([n] * ndim)))")
     ok_key = False
     free = None
-    if isinstance(key, ast.Lambda) and isinstance(key.body, ast.Tuple) and key.body.elts:
-        arg = key.args.args[0].arg
-        first = key.body.elts[0]
-        free = sorted(N.names_in(key.body) - {arg, "max", "min", "len", "sum", "tuple"})
-        ok_key = X.same_expr(first, f"max({arg})") and not free
+    # the key as (argument name, returned expressions, owning function or None): a lambda, or a module-level function given by name
+    kf = None
+    if isinstance(key, ast.Lambda):
+        kf = (key.args.args[0].arg, [key.body], None)
+    elif isinstance(key, ast.Name) and key.id in f.module.functions:
+        kfn = f.module.functions[key.id]
+        kf = (kfn.params()[0], [X.expand_locals(r_.value, kfn.node) for r_ in X.returns_of(kfn.node) if r_.value is not None], kfn)
+    if kf is not None and kf[1]:
+        arg, bodies, kfn = kf
+        local = set() if kfn is None else {n.id for n in ast.walk(kfn.node) if isinstance(n, ast.Name) and isinstance(n.ctx, ast.Store)}
+        free = sorted(set().union(*[N.names_in(b) for b in bodies]) - {arg, "max", "min", "len", "sum", "tuple"} - local)
+        firsts = []
+        for b in bodies:
+            for alt in X.alternatives(b):
+                firsts.append(alt.elts[0] if isinstance(alt, ast.Tuple) and alt.elts else None)
+        ok_key = bool(firsts) and all(x is not None and X.same_expr(x, f"max({arg})") for x in firsts) and not free
     ctx.judge(f, ok_src and ok_key and rev is None, {"source": X.U(sdef[0]) if sdef else None, "key": X.U(key)[:120] if key is not None else None, "free_variables_in_key": free},
               exp, "the ordering depends on n (or is not layered by max coordinate): a tokenizer for grid size n is not prefix-compatible with larger sizes")
 
